@@ -61,14 +61,38 @@ def gen_streams(ctx, n):
     return out
 
 
+def grid_streams(ctx, every=1):
+    """one encoding of every base kind (every simple, string, time and container type), plain and under one
+    EXPLICIT tag, in each of BER-definite, BER-indefinite-chunked, CER and DER: short streams on which every cut point
+    and every chunking is then tried"""
+    out, i = [], 0
+    for c in codec.tag_grid_cases(ctx):
+        X, depth = c.T, 0
+        while X[0] in ('imp', 'exp'):
+            depth += 1; X = X[2]
+        if depth > 1 or c.T[0] == 'imp':
+            continue
+        for cdc, kw in (('BER', dict(defMode=True, maxChunkSize=0)), ('BER', dict(defMode=False, maxChunkSize=2)), ('CER', {}), ('DER', {})):
+            i += 1
+            if every > 1 and (i + ctx.seed) % every:
+                continue
+            if codec.f01_applies(c.T, c.v, cdc == 'CER' or kw.get('defMode') is False):
+                continue
+            e = I.run_encode(cdc, c.obj, **kw)
+            if e[0] == 'ok' and e[1]:
+                out.append((cdc, c.T, [c], e[1]))
+                ctx.stats['grid-stream:' + cdc] += 1
+    return out
+
+
 def run(ctx):
     ctx.rule = ('streams = concatenations of 1..3 BER/CER/DER encodings; schedules = every partition of the stream into chunks '
                 '(all 2^(n-1) for short streams), sampled partitions with empty polls, short reads, end-of-stream together with or '
                 'after the last chunk; seekable growing stream and non-seekable stream behind the caching wrapper; with and without '
-                'guiding type; non-trivial = schedule with at least 2 chunks')
+                'guiding type; besides random types, one encoding of every base kind, plain and under an EXPLICIT tag, per codec; non-trivial = schedule with at least 2 chunks')
     search_only = getattr(ctx, 'search_only', False)
     max_exh = 7 if ctx.tier == 'quick' else 11
-    sts = gen_streams(ctx, ctx.n(40, 400))
+    sts = gen_streams(ctx, ctx.n(40, 400)) + grid_streams(ctx, every=4 if ctx.tier == 'quick' else 1)
     exprs, meta = [], []
     for cdc, T, cs, data in sts:
         spec = cs[0].spec
